@@ -58,7 +58,7 @@ CHECKS.update({
 CHECKS.update({
  "C07": dict(engine="llsym", cat="model_checking", design="4/C07",
    technique="symbolic execution of vec/buf/que/str IR (llsym + z3) with a symbolic allocator: one fail/succeed Boolean per allocation request, forked by the executor; abstract-model and block-ledger oracle",
-   text="For vector, buffer, queue and string states (constructed or API-built, including queues of 9-10 nodes with and without recycled pool nodes), one allocating operation under every subset of failing allocation requests, then the same operation with a healthy allocator, then destruction: failure must be reported, the container must equal its previous abstract state and satisfy its invariants, the retry must succeed, and every block handed out must be released exactly once (double free / invalid free are executor findings).",
+   text="For vector, buffer, queue and string states (constructed or API-built, including queues of 9-10 nodes with and without recycled pool nodes), one allocating operation under every subset of failing allocation requests, then the same operation with a healthy allocator, then destruction: failure must be reported, the container must equal its previous abstract state and satisfy its invariants (for strings built by terminating variants: the NUL after the content), the retry must succeed, and every block handed out must be released exactly once (double free / invalid free are executor findings).",
    note=E2NOTE + " Native replay installs an allocator with the model's failure mask into a_alloc."),
 })
 REALNOTE = " Exact-real domain: a_real is mapped to z3 Real (rational arithmetic), so the verdict is about the mathematical formula for ALL real inputs; IEEE rounding is outside the claim (stated in the evidence)."
@@ -99,7 +99,7 @@ CHECKS.update({
 CHECKS.update({
  "C13": dict(engine="llsym+cbmc", cat="model_checking", design="4/C13",
    technique="llsym symbolic execution of src/mf.c, src/fuzzy.c, src/pid_fuzzy.c with a_real as z3 Real (exp/pow uninterpreted with contracts), z3 nlsat for range/shape/continuity/complement/operator/gain clauses; CBMC bit-precise for the min/max operators",
-   text="All 13 membership families for all real inputs and well-ordered parameter tuples: value in [0,1] (no division by a zero width), dispatcher = specific function, core/support/monotone-flank shape (closed core for trap/pi: value exactly 1 on [b,c]), continuity at every break point, S+Z = 1 and lins+linz = 1; the seven operators on [0,1]^2: range, commutativity, monotonicity, min/max bounds, boundary cases (min/max also bit-precisely); scheduled gains = base + weighted mean of the consequents, inside the consequent range; scratch buffer of exactly the documented size never overrun (order 3 with two simultaneously active sets).",
+   text="All 13 membership families for all real inputs and well-ordered parameter tuples: value in [0,1] (no division by a zero width), dispatcher = specific function, core/support/monotone-flank shape (closed core for trap/pi: value exactly 1 on [b,c]), continuity at every break point, S+Z = 1 and lins+linz = 1; the seven operators on [0,1]^2: range, commutativity, monotonicity, min/max bounds, boundary cases (min/max also bit-precisely); scheduled gains = base + weighted mean of the consequents, inside the consequent range; scratch buffer of exactly the documented size never overrun (order 3 with two simultaneously active sets); with a symbolic previous error (independent error / error change, different numbers of active sets), separate set tables and every position of the inputs relative to the triangles: kp, ki, kd = base + weighted mean over the rule table (product operator; thorough: all six closed-form operators).",
    note=E2NOTE + REALNOTE + " Bit-precise range of the membership functions is outside: floating-point division circuits give no SAT verdict within the budget."),
 })
 CHECKS.update({
@@ -117,7 +117,7 @@ CHECKS.update({
 CHECKS.update({
  "C10": dict(engine="llsym", cat="model_checking", design="4/C10",
    technique="symbolic execution of src/complex.c + inline complex.h (emitted via LIBA_COMPLEX_C) in the all-fallback and the libm-bound configuration, a_real as z3 Real, libm calls as fresh reals with sign/range/monotonicity/parity contracts; nlsat decides field identities, inverse pairs, constant relations and ISO C Annex G sign/range tables per quadrant",
-   text="Partial by design. Decided: field arithmetic incl. all real/imaginary-scalar and in-place forms and the inverse pairs (mul/div by the same number or scalar, inv(inv z), z*inv z); relations between the math.h constants; for the configuration with every A_HAVE_C* undefined (never compiled by the test suite): principal-value sign/range tables of csqrt, clog, catan, catanh per open quadrant, casinh/cacosh against the Annex G table of casin/cacos taken as a contract, the real-argument variants, reciprocal families = inv o f, log2/log10 = log / ln b; for the libm-bound configuration: argument/result plumbing of 14 wrappers. NOT decided: accuracy in machine-precision units for any transcendental evaluation, values on the cuts, pow/exp, the direct Annex G proof for the casin/cacos bodies (no solver verdict).",
+   text="Partial by design. Decided: field arithmetic incl. all real/imaginary-scalar and in-place forms and the inverse pairs (mul/div by the same number or scalar, inv(inv z), z*inv z); relations between the math.h constants; for the configuration with every A_HAVE_C* undefined (never compiled by the test suite): principal-value sign/range tables of csqrt, clog, catan, catanh per open quadrant, casinh/cacosh against the Annex G table of casin/cacos taken as a contract, the real-argument variants, reciprocal families = inv o f, log2/log10 = log / ln b; for the casin/cacos fallback bodies (complex switches off, real ones on): on every path the argument handed to asin/acos/atan/log/log1p equals the defining expression of the principal value (B = |Re z|/A, tan(asin B), A(-1)+sqrt(A^2-1)) and the quadrant fix-up is right; for the libm-bound configuration: argument/result plumbing of 14 wrappers. NOT decided: accuracy in machine-precision units for any transcendental evaluation, values on the cuts, pow/exp, the direct Annex G proof for the casin/cacos bodies (no solver verdict).",
    note=E2NOTE + REALNOTE + " Contracts for libm follow ISO C F.10; the accuracy clause of C10 is outside this check."),
 })
 NOT_YET = {}
